@@ -8,13 +8,16 @@ import numpy as np
 import vlib
 from harness import islands_common as ic
 
-GEN = ['Islands']
+GEN = ['Islands', 'IslandBox']
 LEVEL = 'proof'
 TRUSTED = [
     'Coq 8.16.1 kernel + vm_compute; all C02 theorems are axiom-free',
     'translator tools/translate.py: snr numerator, flood/seed/mask comparisons (cross-multiplied fractions), seed scope '
     '(own pixels vs bounding box), connectivity structure, bounding box source, mask expression of source_finder.find_islands; '
     'the matcher fails closed on any other shape',
+    'translator point IslandBox (tools/points_c02x.py): body of models.PixelIsland.calc_bounding_box (np.any axis, offsets entry and '
+    'limit arithmetic per bounding_box slot) and set_mask; Model/IslandBox.v (own pixels in cut-out coordinates) tied by exact '
+    'correspondence on the real method over boolean arrays with any offsets and empty border rows / columns',
     'hand-written skeleton Model/IslandModel.v (label = Graph.components of the 8-neighbour graph, filter by seed, box, mask) '
     'tied by exact correspondence on find_islands',
     'scipy.ndimage.label / find_objects (library hypothesis: classes = Graph.components, validated on every case); numpy',
@@ -120,10 +123,93 @@ def run(ctx, model_ok=True):
                        f'{nbad} images differ')
             ctx.traces = len(vals)
             ctx.hyp['scipy.ndimage.label(structure=ones(3,3)) classes = Graph.components'] = len(vals)
+    run_boxes(ctx, model_ok)
+
+
+BOX_IMPORTS = ("From Coq Require Import ZArith List Bool.\nFrom Aegean Require Import Gen.Islands Gen.IslandBox Lib.Graph "
+               "Model.IslandModel Model.IslandBox.\nImport ListNotations.\nOpen Scope Z_scope.\n")
+
+
+def box_cases(ctx):
+    """boolean cut-outs (non-square, empty border rows / columns allowed, at least one true cell) with offsets"""
+    rng = ctx.rng
+    out = []
+    for k in range(120 if ctx.tier == 'quick' else 1500):
+        R, C = rng.randint(1, 7), rng.randint(1, 9)
+        if k % 3 == 0:
+            R, C = rng.choice([(1, rng.randint(1, 9)), (rng.randint(1, 7), 1), (2, 7), (6, 2)])
+        d = np.zeros((R, C), dtype=bool)
+        for _ in range(rng.randint(1, max(1, R * C // 2))):
+            d[rng.randrange(R), rng.randrange(C)] = True
+        off = [rng.choice([0, 0, 1, 3, 17, 250]), rng.choice([0, 0, 2, 5, 31, 999])]
+        out.append((d, off))
+    return out
+
+
+def box_impl(d, off):
+    from AegeanTools.models import PixelIsland
+    isl = PixelIsland()
+    isl.calc_bounding_box(d.copy(), offsets=list(off))
+    (a0, a1), (b0, b1) = [tuple(int(v) for v in b) for b in isl.bounding_box]
+    return (a0, a1, b0, b1)
+
+
+def box_oracle(d, off):
+    rr, cc = np.nonzero(d)
+    return (off[0] + int(rr.min()), off[0] + int(rr.max()) + 1, off[1] + int(cc.min()), off[1] + int(cc.max()) + 1)
+
+
+def run_boxes(ctx, model_ok):
+    cs = box_cases(ctx)
+    exprs, impls, nbad = [], [], 0
+    for d, off in cs:
+        key = json.dumps([d.astype(int).tolist(), off])
+        ctx.case(key='box' + key, bucket='calc_bounding_box',
+                 sample={'data': d.astype(int).tolist(), 'offsets': off} if len(ctx.samples) < 4 else None)
+        try:
+            got = box_impl(d, off)
+        except Exception as e:  # noqa
+            got = f'raised {type(e).__name__}: {e}'
+        exp = box_oracle(d, off)
+        if got != exp:
+            nbad += 1
+            if nbad <= 3:
+                ctx.mismatch('PixelIsland.calc_bounding_box vs the tight box of the true cells', {'data': d.astype(int).tolist(),
+                             'offsets': off}, impl=got, model=exp,
+                             is_violation={'box_case': {'data': d.astype(int).tolist(), 'offsets': off},
+                                           'what': f'calc_bounding_box gives {got}, the tight box of the true cells is {exp}'})
+        rr, cc = np.nonzero(d)
+        px = '[' + '; '.join(f'({int(r) + off[0]}, {int(c) + off[1]})' for r, c in zip(rr, cc)) + ']'
+        exprs.append(f'calc_bounding_box (rel_pixels {px} {off[0]} {off[1]}) {off[0]} {off[1]}')
+        impls.append(got)
+    ctx.oblige(f'calc_bounding_box: {len(cs)} boolean cut-outs with offsets give the tight box (implementation vs oracle)',
+               nbad == 0, f'{nbad} differ')
+    if model_ok and exprs:
+        vals, err = vlib.coq_eval(ctx, BOX_IMPORTS, exprs, shard=200, workers=8)
+        if vals is None:
+            ctx.oblige('model evaluation (vm_compute) of Model.IslandBox.calc_bounding_box', False, err)
+        else:
+            mb = 0
+            for v, iv, (d, off) in zip(vals, impls, cs):
+                if tuple(v) != iv:
+                    mb += 1
+                    if mb <= 3:
+                        ctx.mismatch('PixelIsland.calc_bounding_box vs Model.IslandBox.calc_bounding_box',
+                                     {'data': d.astype(int).tolist(), 'offsets': off}, impl=iv, model=v)
+            ctx.oblige(f'correspondence: {len(vals)} cut-outs, calc_bounding_box equal to Model.IslandBox', mb == 0,
+                       f'{mb} differ')
 
 
 def search(ctx):
     rng = ctx.rng
+    for d, off in box_cases(ctx):
+        try:
+            got = box_impl(d, off)
+        except Exception as e:  # noqa
+            got = f'raised {type(e).__name__}: {e}'
+        if got != box_oracle(d, off):
+            return {'box_case': {'data': d.astype(int).tolist(), 'offsets': off},
+                    'what': f'calc_bounding_box gives {got}, the tight box of the true cells is {box_oracle(d, off)}'}
     t0 = time.time()
     while time.time() - t0 < 150:
         case = ic.gen_image(rng)
@@ -140,6 +226,16 @@ def replay(ctx, obj):
         for b in obj.get('broken', []):
             print('  ', b.get('what'), str(b.get('detail', b.get('case', '')))[:400])
         return 1
+    if 'box_case' in fi:
+        d = np.array(fi['box_case']['data'], dtype=bool)
+        off = fi['box_case']['offsets']
+        try:
+            got = box_impl(d, off)
+        except Exception as e:  # noqa
+            got = f'raised {type(e).__name__}: {e}'
+        exp = box_oracle(d, off)
+        print('implementation:', f'calc_bounding_box gives {got}, tight box {exp}' if got != exp else 'property holds on this cut-out')
+        return 1 if got != exp else 0
     case = ic.case_from_json(fi['case'])
     msg = compare(case)
     print('implementation:', msg or 'property holds on this image')
